@@ -241,8 +241,9 @@ where
     pub fn to_map(&self) -> HashMap<(String, String), T> {
         HashMap::from_iter(self.taxa.iter().cartesian_product(self.taxa.iter()).map(
             |(taxon1, taxon2)| {
-                let idx = self.get_pair_index(taxon1, taxon2).unwrap();
-                ((taxon1.clone(), taxon2.clone()), self.matrix[idx])
+                // Identical taxa have no stored cell: their distance is zero
+                let dist = *self.get(taxon1, taxon2).unwrap();
+                ((taxon1.clone(), taxon2.clone()), dist)
             },
         ))
     }
